@@ -474,9 +474,13 @@ Proof.
   intros q w1. destruct (fst q) as [s|]; [|apply same_refl]. destruct (f s); [apply Hg|apply same_refl].
 Qed.
 
+Lemma n_note_multi l : neutral (note_multi l).
+Proof.
+  intros w. unfold note_multi. destruct l as [id|g]; [|apply same_refl]. destruct (Nat.eqb _ 0); [apply same_refl|]. triv_same.
+Qed.
 Lemma n_watch_service f l : neutral (watch_service f l).
 Proof.
-  intros w. unfold watch_service. eapply same_trans; [apply n_set_watched|].
+  intros w. unfold watch_service. eapply same_trans; [apply n_note_multi|]. eapply same_trans; [apply n_set_watched|].
   apply n_found_iter. intros s a. apply n_listener_offered.
 Qed.
 Lemma n_stop_watch_service f l : neutral (stop_watch_service f l).
@@ -487,7 +491,7 @@ Proof.
 Qed.
 Lemma n_watch_all_services l : neutral (watch_all_services l).
 Proof.
-  intros w. unfold watch_all_services. eapply same_trans; [apply n_set_watch_all|].
+  intros w. unfold watch_all_services. eapply same_trans; [apply n_note_multi|]. eapply same_trans; [apply n_set_watch_all|].
   apply n_found_iter. intros s a. apply n_listener_offered.
 Qed.
 Lemma n_stop_watch_all_services l : neutral (stop_watch_all_services l).
